@@ -166,8 +166,11 @@ static void *thread_main(void *arg) {
 	g_slot[slot].finished = 1;
 	int next = decide(SITE_TASK_END, true);
 	g_cur = next;
-	if (__tsan_ignore_thread_end) __tsan_ignore_thread_end(__FILE__, __LINE__);
 	grant(next);
+	// stay parked until the phase is over: thread exit (TLS destructors, malloc arena hand-back inside glibc)
+	// must not overlap in real time with whoever runs next; main releases finished threads one at a time
+	park(slot);
+	if (__tsan_ignore_thread_end) __tsan_ignore_thread_end(__FILE__, __LINE__);
 	return nullptr;
 }
 
@@ -190,7 +193,7 @@ void sched_run_phase(int ntasks, const int *task_ids, TaskBody body, void *arg, 
 	g_cur = first;
 	grant(first);
 	park(0);
-	for (int i = 1; i <= ntasks; ++i) pthread_join(g_slot[i].th, nullptr);
+	for (int i = 1; i <= ntasks; ++i) { grant(i); pthread_join(g_slot[i].th, nullptr); }
 	g_in_phase = 0;
 	g_rec = nullptr;
 	fence();
